@@ -604,6 +604,22 @@ func runC14(c *Ctx) {
 						_, path := loadPath(v)
 						if len(path) > 0 && path[len(path)-1] == "SubPackageNo" && b2.Succs[0].Dominates(b) {
 							ok, d = true, ""
+							// … by every packet numbered 1: no path from the test's true side to the code behind it avoids the creation
+							seen := map[*ssa.BasicBlock]bool{b: true}
+							work := []*ssa.BasicBlock{b2.Succs[0]}
+							for len(work) > 0 {
+								x := work[len(work)-1]
+								work = work[:len(work)-1]
+								if seen[x] {
+									continue
+								}
+								seen[x] = true
+								if x == b2.Succs[1] {
+									ok, d = false, "a packet numbered 1 can reach the slot store without a fresh record being created (when a record for the ID exists already): a restarted transfer inherits the abandoned one's creation time, first header (the serial named in the 0x8003) and slots"
+									break
+								}
+								work = append(work, x.Succs...)
+							}
 						}
 					}
 					// header argument is the message's header
